@@ -15,6 +15,9 @@ RULE = (
     "M(pi D) must equal pi M(D) with identical labels, levels, slices and the same encoding of a probe frame; index "
     "and column changes must have no effect at all.  A case is one (formula, transformation family); non-trivial: "
     "the formula has a categorical or a stateful transform"
+    '  Added: named indexes, duplicated junk columns, unused all-NaN columns under every na_action, a column 3e7 '
+    '+ small under scale / center, an observation-level factor, the probe rows evaluated in every order on one '
+    'design, the data-frame view of each of those results. '
 )
 ASSUMPTIONS = ["tolerance rtol=1e-9/atol=1e-12 for permuted reductions (summation order)", "fitted parameters are compared through the encoding of a fixed probe frame"]
 
